@@ -171,6 +171,8 @@ size_t apduCmdDec(apdu_cmd_t* cmd, const octet apdu[], size_t count)
 	{
 	case 0:
 		rdf_len = 0;
+		if (cdf_len_len == 3 && cdf_len < 256)
+			return SIZE_MAX;
 		break;
 	case 1:
 		// короткая форма
